@@ -103,3 +103,28 @@ Proof.
   repeat constructor; cbn; intuition congruence.
 Qed.
 Print Assumptions C19_ex.
+
+(* ---- the three encodings as READ FROM THE SOURCE (Gen/Source.v is regenerated from
+   soundevent/evaluation/encoding.py on every run): with the encoder's `encode` and `num_classes` given
+   by the model of SimpleEncoder they compute the model's answers for every vocabulary (repeated tags
+   included) and every tag list; in particular the element assignments never index out of range. ---- *)
+From SE Require Gen.Source Gen.SrcEncoding.
+
+Theorem C19_src_classification : forall (h : tag -> Z) vocab tags,
+  Source.classification_encoding (encode h vocab) tags = Ok (classification_encoding h vocab tags).
+Proof. exact SrcEncoding.src_classification. Qed.
+Print Assumptions C19_src_classification.
+
+Theorem C19_src_multilabel : forall (h : tag -> Z) vocab tags,
+  Source.multilabel_encoding (encode h vocab) tags (length vocab) = Ok (multilabel_encoding h vocab tags).
+Proof. exact SrcEncoding.src_multilabel. Qed.
+Print Assumptions C19_src_multilabel.
+
+Theorem C19_src_prediction : forall (h : tag -> Z) vocab ptags,
+  Source.prediction_encoding (encode h vocab) ptags (length vocab) = Ok (prediction_encoding h vocab ptags).
+Proof. exact SrcEncoding.src_prediction. Qed.
+Print Assumptions C19_src_prediction.
+
+Theorem C19_src_encode_in_range : forall (h : tag -> Z) vocab t i, encode h vocab t = Some i -> (i < length vocab)%nat.
+Proof. exact SrcEncoding.encode_bound. Qed.
+Print Assumptions C19_src_encode_in_range.
